@@ -8,6 +8,10 @@ checks = {
    text="The prover is the environment: starting from genuine Setup/Prove output for a catalogue of circuits covering every commitment bookkeeping path, every departure within a deviation bound (<=2 simultaneous structured edits of proof slots, commitment list and public witness; every single-wire corruption of the solved assignment pushed through the real prover via the post-solve hook) is enumerated exhaustively and offered to the real Verify in memory and through both encodings; accept/reject must equal a textbook reference verifier written from the paper, and validity-preserving transformations must be accepted.",
    note="Bounded adversary: the finite structured edit alphabet, not all polynomial-time provers; gnark-crypto pairing and subgroup arithmetic trusted; quick = 3 curves, thorough = 7 curves and all edit pairs.",
    technique="deviation-bounded exhaustive exploration of adversarial prover answers against the real verifier, judged by a reference verifier"),
+ "C02": dict(level=MC, ref="DESIGN.md §2 C02",
+   text="(1) Setup structure, exhaustively per system: every selector column and the three permutation columns are recomputed from the constraint list and committed with the Lagrange SRS and must equal the verifying-key digests; for every pair of the 3n wire positions 'same permutation cycle' iff 'same wire' (catalogue circuits and the sparse systems of the API program generator). (2) The prover is the environment: every single structured edit of every proof element, claimed value, list and public witness, and pairs {witness edit} x {list edit}, offered in memory and through both encodings, must be rejected while genuine pairs are accepted. (3) Every single-row corruption of L/R/O — a violated gate, or a violated copy constraint with every gate satisfied — pushed through the real prover via the post-solve hook must be rejected.",
+   note="Bounded adversary (structured edit alphabet, <=2 departures); a-priori oracle 'Fiat-Shamir binds every element' instead of a second PLONK verifier; gnark-crypto KZG commit trusted for recomputing digests.",
+   technique="exhaustive structural check of Setup output against the constraint list + deviation-bounded exploration of adversarial prover answers against the real verifier"),
  "C04": dict(level=MC, ref="DESIGN.md §2 C04, §1.6b",
    text="Bounded-exhaustive enumeration of straight-line API programs (all of depth 1 over the full operand pool, all connected programs of depth 2 and a linear sub-alphabet at depth 3), each compiled by both real builders under every compress threshold and solved by the real solver on all of F_47 (or a boundary alphabet) and on boundary values of the curve fields; verdict and every exposed value must equal a big.Int reference of the documented meaning and any exposed value off by one must fail.",
    note="Reference = doc comments of frontend.API; depth bound 2 (3 for the linear sub-alphabet); large fields on boundary alphabets only.",
@@ -16,6 +20,10 @@ checks = {
    text="Every enumerated (system, witness, task-count) case runs the real solver and an independent sequential big.Int reference solver; returned W/A/B/C or L/R/O and the hooked wire vector are re-evaluated row by row and compared with the reference, failures must be justified by the reference, the level invariant (no instruction reads a wire written in the same or a later level) is checked on every system, and the (level size, nbTasks) grid of the parallel scheduler's chunking arithmetic is enumerated exhaustively.",
    note="Worker interleavings inside one level are covered by the level-invariant check plus the C10 scheduler exploration; reference solver covers generic rows/gates, hints, lookup blueprint.",
    technique="exhaustive enumeration of systems x witnesses x task counts against a sequential reference solver; explicit invariant check on every instruction level"),
+ "C08": dict(level=MC, ref="DESIGN.md §2 C08",
+   text="The untrusted prover's bytes are the environment: from genuine Groth16 and PLONK proofs and public witnesses on each curve, EVERY prefix of every encoding, every single-byte substitution (quick: 4 values/position, thorough: all 255), every list-length-field rewrite with matching and non-matching payload, every list length 0..n+2, every witness header combination from the alphabet and pairs of one proof edit with one witness edit are decoded (with and without Witness.Public()) and verified in isolated worker processes; no panic or process crash, verdict equal to the reference (Groth16) / genuine-pair-only (PLONK), inconsistent structure reported as an error.",
+   note="Length prefixes that make gnark-crypto's own decoders allocate gigabytes are excluded (dependency resource question): such worker deaths are attributed by stack frame and counted, any crash whose first frame is in gnark is a violation.",
+   technique="exhaustive enumeration of single-fault byte/structure mutations of genuine messages (deviation bound 1, pairs for list x header) against the real decoders and verifiers, with process-level crash detection"),
  "C05": dict(level=MC, ref="DESIGN.md §2 C05, §1.5",
    text="Explicit-state model checking of the constraint systems the real compiler emits over the 47-element field: for every API operation x operand-kind pattern x builder and every input tuple, breadth-first search over all values of every other wire (hint outputs included) computes the exact set of satisfiable outputs and compares it with the documented relation; every leaf is re-validated with big-integer arithmetic and every assignment the real solver produces is replayed as a model path. Exhaustive in F_47 for <=2 variable operands, boundary alphabet for 3+.",
    note="Trusts GetR1Cs/GetSparseR1Cs as the rows the backends prove (C02 checks that link for PLONK); algebraic gadgets only — statistical arguments are not decided over F_47; large-field hint substitution is bounded to <=2 departures over a finite alphabet.",
